@@ -1,6 +1,6 @@
 (* Proofs about the C28 model (KeepAlive.v / RunC28.v). *)
 From Coq Require Import List ZArith Bool Lia ZifyBool.
-From Bfe Require Import lib.Val lib.Bytes model.Http1Resp model.KeepAlive run.RunC28.
+From Bfe Require Import lib.Val lib.Bytes model.Http1Resp model.KeepAlive run.RunC27 run.RunC28 proofs.Http1RespProofs.
 Import ListNotations.
 Open Scope Z_scope.
 
@@ -97,7 +97,7 @@ Proof.
   - destruct (respond' _ _ _ _ _ _ _ _ _ _) as [[out c] d]. eexists; reflexivity.
   - pose proof (respond_close_expect sniff now body_allowed_status
         {| q_minor := r_minor r; q_head := bytes_eqb (r_method r) s_head_m; q_conn := get_ci s_conn (r_fields r) |}
-        false (h_status sc) (h_hdrs sc ++ [(s_xreq, get_ci s_vid (r_fields r))]) (h_pieces sc) (h_err sc) be) as Hc.
+        false (h_status sc) (eff_hdrs (h_hdrs sc ++ [(s_xreq, get_ci s_vid (r_fields r))])) (h_pieces sc) (h_err sc) be) as Hc.
     unfold respond'. destruct (respond_gen _ _ _ _ _ _ _ _ _ _ _) as [[out c] d]. cbn [fst snd] in Hc. subst c.
     eexists; reflexivity.
 Qed.
@@ -139,3 +139,253 @@ Proof.
 Qed.
 Lemma ex_in_order : Forall2 frames [ex_b1; ex_b2] [ex_r1; ex_r2] /\ r_framing ex_r1 = RLen 79 /\ r_framing ex_r2 = RLen 0.
 Proof. split; [repeat constructor; [exact ex_frames1|exact ex_frames2]|split; reflexivity]. Qed.
+
+(* a POST whose chunked body starts with a 17-digit size line, directly followed by a complete "GET /evil"; before
+   the fix 95fd21d the handler's response kept the connection alive and the embedded request was answered *)
+Definition witness_chunk : val :=
+  VL [VL [VL [VB [80;79;83;84;32;47;97;32;72;84;84;80;47;49;46;49;13;10;72;111;115;116;58;32;101;120;97;109;112;108;101;46;111;114;103;13;10;88;45;86;101;114;105;102;45;73;100;58;32;114;48;13;10;88;45;86;101;114;105;102;45;83;112;101;99;58;32;114;48;13;10;84;114;97;110;115;102;101;114;45;69;110;99;111;100;105;110;103;58;32;99;104;117;110;107;101;100;13;10;13;10;48;48;48;48;48;48;48;48;48;48;48;48;48;48;48;48;53;13;10;71;69;84;32;47;101;118;105;108;32;72;84;84;80;47;49;46;49;13;10;72;111;115;116;58;32;101;120;97;109;112;108;101;46;111;114;103;13;10;88;45;86;101;114;105;102;45;73;100;58;32;101;118;105;108;13;10;88;45;86;101;114;105;102;45;83;112;101;99;58;32;101;118;105;108;13;10;13;10]; VB [114;48]; VZ 4; VZ 0; VZ 0]];
+      VL [VL [VB [101;118;105;108]; VZ 0; VZ 0; VZ 200; VL [VL [VB [68;97;116;101]; VB [84;104;117;44;32;48;49;32;74;97;110;32;49;57;55;48;32;48;48;58;48;48;58;48;48;32;71;77;84]]]; VL [VB [111;107]]; VZ 0]; VL [VB [114;48]; VZ 0; VZ 0; VZ 200; VL [VL [VB [68;97;116;101]; VB [84;104;117;44;32;48;49;32;74;97;110;32;49;57;55;48;32;48;48;58;48;48;58;48;48;32;71;77;84]]]; VL [VB [111;107]]; VZ 0]]].
+Lemma old_corrupt_chunk_refuted :
+  exists i, dec_C28 i <> None /\
+    prop_C28 i (old_output_of i) = false /\ prop_C28 i (run_C28 i) = true.
+Proof. exists witness_chunk. split; [discriminate|]. split; vm_compute; reflexivity. Qed.
+
+
+(* ---------- prop_C28 accepts what the model's loop writes (module handlers, well-formed complete requests) ---------- *)
+(* the request-body state does not influence the bytes of the response when nothing can go wrong with the body *)
+Lemma write_header_rb sniff now allowed q b w status h clen c0 hdone p :
+  let d1 := write_header sniff now true allowed q (b, false, w, false) status h clen c0 hdone p in
+  let d0 := write_header sniff now true allowed q (false, false, false, false) status h clen c0 hdone p in
+  d_head d1 = d_head d0 /\ d_chunking d1 = d_chunking d0 /\ d_close d1 = d_close d0 /\ d_clen d1 = d_clen d0.
+Proof.
+  unfold write_header. cbn [fst snd d_head d_chunking d_close d_clen].
+  rewrite !andb_false_r. cbn [andb orb negb]. rewrite ?andb_false_r, ?orb_false_r. repeat split; reflexivity.
+Qed.
+Lemma respond_rb sniff now allowed q b w ff status h pieces err :
+  fst (respond_gen sniff now true allowed q (b, false, w, false) ff status h pieces err) =
+  fst (respond_gen sniff now true allowed q (false, false, false, false) ff status h pieces err).
+Proof.
+  unfold respond_gen.
+  destruct (accept_writes _ _ _ _) as [[acc written] werr].
+  destruct (if ff then _ else _) as [flushed pending].
+  match goal with |- context [write_header sniff now true allowed q (b, false, w, false) status h ?cl false ?hd ?pp] =>
+    destruct (write_header_rb sniff now allowed q b w status h cl false hd pp) as [E1 [E2 [E3 E4]]] end.
+  cbn [fst]. rewrite E1, E2, E3, E4. reflexivity.
+Qed.
+
+(* a final status line is not the interim "100 Continue" *)
+Fixpoint diverge (p a : bytes) : bool :=
+  match p, a with
+  | x :: p', y :: a' => if x =? y then diverge p' a' else true
+  | _, _ => false
+  end.
+Lemma diverge_not_prefix p : forall a rest, diverge p a = true -> is_prefix p (a ++ rest) = false.
+Proof.
+  induction p as [|x p IH]; intros a rest H; [discriminate|]. destruct a as [|y a]; [discriminate|].
+  cbn [diverge] in H. cbn [app is_prefix]. destruct (x =? y); [rewrite (IH _ _ H); reflexivity|reflexivity].
+Qed.
+Lemma diverge_all : forallb (fun k => diverge s_continue (sl_body 0 (200 + Z.of_nat k)) && diverge s_continue (sl_body 1 (200 + Z.of_nat k))) (seq 0 400) = true.
+Proof. vm_compute. reflexivity. Qed.
+Lemma no_continue m c rest : (m = 0 \/ m = 1) -> 200 <= c <= 599 -> strip_continue (status_line m c ++ rest) = None.
+Proof.
+  intros Hm Hc. unfold strip_continue.
+  assert (Hd : diverge s_continue (sl_body m c) = true).
+  { pose proof diverge_all as H. rewrite forallb_forall in H. specialize (H (Z.to_nat (c - 200))).
+    rewrite in_seq in H. assert (Hin : (0 <= Z.to_nat (c - 200) < 0 + 400)%nat) by lia. specialize (H Hin).
+    replace (200 + Z.of_nat (Z.to_nat (c - 200))) with c in H by lia. apply andb_true_iff in H. destruct Hm; subst; tauto. }
+  destruct (status_line_ok m c Hm ltac:(lia)) as [S1 _]. rewrite S1, <- app_assoc.
+  rewrite (diverge_not_prefix _ _ _ Hd). reflexivity.
+Qed.
+
+Lemma get_all_ci_exact X (l : fields) : (forall kv, In kv l -> eq_fold (fst kv) X = true -> fst kv = X) ->
+  get_all_ci X l = get_all X l.
+Proof.
+  intro H. unfold get_all_ci, get_all. f_equal. apply filter_ext_in. intros kv Hin. unfold canon_lower_eq, key_is.
+  destruct (eq_fold (fst kv) X) eqn:E.
+  - rewrite (H kv Hin E). symmetry. apply bytes_eqb_refl.
+  - destruct (bytes_eqb X (fst kv)) eqn:E2; [|reflexivity]. apply bytes_eqb_eq in E2. rewrite <- E2, eq_fold_refl in E. discriminate.
+Qed.
+Definition xreq_free (h : fields) : bool := forallb (fun kv => negb (eq_fold (fst kv) s_xreq)) h.
+
+Lemma xreq_seen q status hdrs id clen hdone p :
+  forallb key_ok (hdrs ++ [(s_xreq, id)]) = true -> xreq_free hdrs = true -> norm_value id = id ->
+  get_all_ci s_xreq (fs_of (d_fields (wh q status (hdrs ++ [(s_xreq, id)]) clen hdone p))
+                           (d_extra (wh q status (hdrs ++ [(s_xreq, id)]) clen hdone p))) = [id].
+Proof.
+  intros Hk Hfree Hid. set (h := hdrs ++ [(s_xreq, id)]) in *.
+  assert (Hek := extra_kinds q status h clen hdone p).
+  assert (Hin5 : forall kv, In kv (d_fields (wh q status h clen hdone p)) -> In kv h) by (intros kv; unfold wh; apply d_fields_in).
+  assert (Hnox : forall kv, In kv hdrs -> eq_fold (fst kv) s_xreq = false).
+  { intros kv Hin. unfold xreq_free in Hfree. rewrite forallb_forall in Hfree. apply negb_true_iff. apply Hfree. exact Hin. }
+  assert (Hext : forall kv, In kv (d_extra (wh q status h clen hdone p)) -> eq_fold (fst kv) s_xreq = false).
+  { intros kv Hin. destruct (Hek kv Hin) as [[K _]|[[K _]|[K|[K|K]]]]; rewrite K; reflexivity. }
+  rewrite get_all_ci_exact.
+  2:{ intros kv Hin He. unfold fs_of in Hin. apply in_map_iff in Hin. destruct Hin as [y [Hy Hin]]. subst kv.
+      unfold parsed in *. cbn [fst] in *. apply in_app_or in Hin. destruct Hin as [Hin|Hin].
+      - apply in_map_iff in Hin. destruct Hin as [z [Hz Hin]]. subst y. unfold san in *. cbn [fst] in *.
+        apply (proj1 (in_sort _ _)) in Hin. apply Hin5 in Hin. unfold h in Hin. apply in_app_or in Hin. destruct Hin as [Hin|Hin].
+        + rewrite (Hnox _ Hin) in He. discriminate.
+        + destruct Hin as [<-|[]]. reflexivity.
+      - rewrite (Hext _ Hin) in He. discriminate. }
+  rewrite get_all_fs_of. unfold wh. rewrite (d_fields_other q status h clen hdone p s_xreq) by (try reflexivity; left; reflexivity).
+  fold (wh q status h clen hdone p).
+  rewrite (get_all_none s_xreq (d_extra (wh q status h clen hdone p))).
+  2:{ intros x Hx. unfold key_is. destruct (bytes_eqb s_xreq (fst x)) eqn:E; [|reflexivity]. apply bytes_eqb_eq in E.
+      pose proof (Hext x Hx) as Hf. rewrite <- E, eq_fold_refl in Hf. discriminate. }
+  unfold h. rewrite get_all_app, (get_all_none s_xreq hdrs).
+  2:{ intros x Hx. unfold key_is. destruct (bytes_eqb s_xreq (fst x)) eqn:E; [|reflexivity]. apply bytes_eqb_eq in E.
+      pose proof (Hnox x Hx) as Hf. rewrite <- E, eq_fold_refl in Hf. discriminate. }
+  rewrite get_all_cons. unfold key_is. cbn [fst snd]. rewrite bytes_eqb_refl. change (get_all s_xreq []) with (@nil bytes).
+  cbn [map app]. rewrite Hid. reflexivity.
+Qed.
+
+Lemma respond_starts q rb ff status h pieces err out close dr :
+  respond q rb ff status h pieces err = (out, close, dr) -> exists X, out = status_line (q_minor q) status ++ X.
+Proof.
+  unfold respond, respond_gen.
+  destruct (accept_writes _ _ _ _) as [[acc written] werr].
+  destruct (if ff then _ else _) as [flushed pending].
+  intro H. pose proof (f_equal (fun x => fst (fst x)) H) as Ho. cbv beta in Ho. cbn [fst snd] in Ho. clear H.
+  match type of Ho with d_head ?d ++ ?b = _ => set (dd := d) in *; set (bb := b) in * end.
+  change (d_head dd) with (status_line (q_minor q) status ++ write_subset (d_fields dd) ++ concat (map write_raw_field (d_extra dd)) ++ crlf) in Ho.
+  rewrite <- Ho, <- app_assoc. eexists. reflexivity.
+Qed.
+Lemma check_nil crs : check_responses crs [] = true.
+Proof. destruct crs; reflexivity. Qed.
+
+(* what makes a client request + its handler fall into the proved sub-language: kind 0 (well-formed, complete), no
+   Expect field, handled by a module response (src 0) whose header is well formed, echoes the request id as X-Req
+   and whose supplier is consistent *)
+Definition rq_of (r : req) : rq :=
+  {| q_minor := r_minor r; q_head := bytes_eqb (r_method r) s_head_m; q_conn := get_ci s_conn (r_fields r) |}.
+Definition good_req (scripts : list script) (cr : creq) (r : req) : Prop :=
+  c_kind cr = 0 /\ get_ci s_expect (r_fields r) = [] /\ c_head cr = bytes_eqb (r_method r) s_head_m /\
+  (r_minor r = 0 \/ r_minor r = 1) /\ get_ci s_vid (r_fields r) = c_id cr /\ norm_value (c_id cr) = c_id cr /\
+  exists sc, find_script (get_ci s_spec (r_fields r)) scripts = Some sc /\ h_src sc = 0 /\
+    200 <= h_status sc <= 599 /\ wf_hdrs (h_hdrs sc ++ [(s_xreq, c_id cr)]) = true /\ xreq_free (h_hdrs sc) = true /\
+    blen (concat (h_pieces sc)) < 2 ^ 62 /\
+    (expects_b (rq_of r) (h_status sc) = true ->
+     h_err sc = false /\ forall v, get_all s_cl (h_hdrs sc ++ [(s_xreq, c_id cr)]) = [v] ->
+                                   parse_dec v = Some (blen (concat (h_pieces sc)))).
+
+Lemma serve_one_good scripts cr r sc :
+  get_ci s_expect (r_fields r) = [] -> get_ci s_vid (r_fields r) = c_id cr ->
+  find_script (get_ci s_spec (r_fields r)) scripts = Some sc -> h_src sc = 0 ->
+  wf_hdrs (h_hdrs sc ++ [(s_xreq, c_id cr)]) = true ->
+  exists out close dr,
+    respond (rq_of r) (false, false, false, false) false (h_status sc) (h_hdrs sc ++ [(s_xreq, c_id cr)]) (h_pieces sc) (h_err sc)
+      = (out, close, dr) /\
+    serve_one RunC27.sniff_text fixed_date true scripts r false = Some (out, close).
+Proof.
+  intros He Hv Hs Hsrc Hwfh. unfold serve_one. rewrite He, Hs, Hsrc, Hv, (eff_wf _ Hwfh).
+  change (has_token [] s_100c) with false. cbn [andb negb is_empty Z.eqb orb app].
+  fold (rq_of r).
+  set (rb := ((match r_framing r with RLen n => negb (n =? 0) | RChunked => true end), false, false, false)).
+  unfold respond'.
+  pose proof (respond_rb RunC27.sniff_text fixed_date body_allowed_status (rq_of r)
+                (match r_framing r with RLen n => negb (n =? 0) | RChunked => true end) false false
+                (h_status sc) (h_hdrs sc ++ [(s_xreq, c_id cr)]) (h_pieces sc) (h_err sc)) as Hrb.
+  fold rb in Hrb. unfold respond.
+  destruct (respond_gen RunC27.sniff_text fixed_date true body_allowed_status (rq_of r) rb false (h_status sc)
+              (h_hdrs sc ++ [(s_xreq, c_id cr)]) (h_pieces sc) (h_err sc)) as [[o1 c1] d1].
+  destruct (respond_gen RunC27.sniff_text fixed_date true body_allowed_status (rq_of r) (false, false, false, false) false (h_status sc)
+              (h_hdrs sc ++ [(s_xreq, c_id cr)]) (h_pieces sc) (h_err sc)) as [[o0 c0] d0].
+  cbn [fst] in Hrb. injection Hrb as -> ->. exists o0, c0, d0. split; reflexivity.
+Qed.
+
+Lemma check_outputs : forall crs rqs scripts, Forall2 (good_req scripts) crs rqs ->
+  forall o, outputs RunC27.sniff_text fixed_date true scripts rqs = Some o -> check_responses crs o = true.
+Proof.
+  induction 1 as [|cr r crs rqs Hg _ IH]; intros o Ho.
+  - cbn in Ho. injection Ho as <-. reflexivity.
+  - destruct Hg as [Hk [Hne [Hh [Hm [Hvid [Hnid [sc [Hs [Hsrc [Hst [Hwf [Hfree [Hlen Hreg]]]]]]]]]]]]].
+    destruct (serve_one_good scripts cr r sc Hne Hvid Hs Hsrc Hwf) as [out [close [dr [Hr Hso]]]].
+    cbn [outputs] in Ho. rewrite Hso in Ho.
+    set (tail := if close then [] else match outputs RunC27.sniff_text fixed_date true scripts rqs with Some o' => o' | None => [] end).
+    assert (Hoeq : o = out ++ tail /\ (close = false -> outputs RunC27.sniff_text fixed_date true scripts rqs = Some tail)).
+    { unfold tail. destruct close.
+      - injection Ho as <-. rewrite app_nil_r. split; [reflexivity|discriminate].
+      - destruct (outputs RunC27.sniff_text fixed_date true scripts rqs) as [o'|]; [|discriminate]. injection Ho as <-. split; reflexivity. }
+    destruct Hoeq as [-> Htl].
+    destruct (respond_starts _ _ _ _ _ _ _ _ _ _ Hr) as [X HX].
+    destruct (parses_as_one (rq_of r) false (h_status sc) _ (h_pieces sc) (h_err sc) tail out close dr
+                Hwf Hm ltac:(lia) Hlen Hreg Hr) as [fs [fr [Hp [Hfr [cl [hd [p Hfs]]]]]]].
+    { unfold tail. intro Hc. rewrite Hc. reflexivity. }
+    cbn [check_responses].
+    destruct (is_empty (out ++ tail)) eqn:Eemp; [reflexivity|].
+    assert (Hsc : strip_continue (out ++ tail) = None).
+    { rewrite HX, <- app_assoc. apply no_continue; [exact Hm|exact Hst]. }
+    rewrite Hsc, Eemp. cbn [andb negb].
+    rewrite Hh. change (bytes_eqb (r_method r) s_head_m) with (q_head (rq_of r)). rewrite Hp.
+    unfold mkp. cbn [p_complete p_status p_fields p_rest andb].
+    rewrite Hk. cbn [Z.eqb].
+    assert (Hx : get_all_ci s_xreq fs = [c_id cr]).
+    { rewrite Hfs. apply xreq_seen; [apply wf_keys; exact Hwf|exact Hfree|exact Hnid]. }
+    rewrite Hx, bytes_eqb_refl. unfold has_ci. rewrite Hx. cbn [negb andb orb].
+    rewrite andb_false_r. cbn [andb].
+    unfold tail. destruct close; [apply check_nil|]. apply IH. apply Htl. reflexivity.
+Qed.
+
+Lemma outputs_some : forall crs rqs scripts, Forall2 (good_req scripts) crs rqs ->
+  exists o, outputs RunC27.sniff_text fixed_date true scripts rqs = Some o.
+Proof.
+  induction 1 as [|cr r crs rqs Hg _ IH]; [exists []; reflexivity|].
+  destruct Hg as [Hk [Hne [Hh [Hm [Hvid [Hnid [sc [Hs [Hsrc [_ [Hwf _]]]]]]]]]]].
+  destruct (serve_one_good scripts cr r sc Hne Hvid Hs Hsrc Hwf) as [out [close [dr [_ Hso]]]].
+  cbn [outputs]. rewrite Hso. destruct close; [eexists; reflexivity|]. destruct IH as [o' ->]. eexists; reflexivity.
+Qed.
+Lemma frames_nonempty b r : frames b r -> b <> [].
+Proof. intros H Hb. subst b. destruct (H []) as [rest [Hr _]]. cbn in Hr. discriminate. Qed.
+Lemma framed_length : forall bs rqs, Forall2 frames bs rqs -> (length rqs <= length (concat bs))%nat.
+Proof.
+  induction 1 as [|b r bs rqs Hf _ IH]; [cbn; lia|]. cbn [length concat]. rewrite app_length.
+  pose proof (frames_nonempty _ _ Hf). destruct b; [congruence|]. cbn [length]. lia.
+Qed.
+
+Theorem prop_of_model_C28_partial i crs ss rqs :
+  dec_C28 i = Some (crs, ss) -> Forall2 frames (map c_bytes crs) rqs -> Forall2 (good_req ss) crs rqs ->
+  prop_C28 i (run_C28 i) = true.
+Proof.
+  intros Hdec Hfr Hgood. unfold prop_C28, run_C28. rewrite Hdec. unfold serve_new, stream_of.
+  change RunC28.sniff_text with RunC27.sniff_text.
+  rewrite (serve_in_order RunC27.sniff_text fixed_date true _ _ Hfr) by (pose proof (framed_length _ _ Hfr); lia).
+  destruct (outputs_some _ _ _ Hgood) as [o Ho]. rewrite Ho. apply (check_outputs _ _ _ Hgood _ Ho).
+Qed.
+
+(* non-vacuity: the POST whose body is a complete GET request followed by a real GET (ex_b1, ex_b2), both answered
+   by module responses *)
+Definition ex_script (k : bytes) : script :=
+  {| h_key := k; h_src := 0; h_read := 0; h_status := 200; h_hdrs := [(s_date, fixed_date)]; h_pieces := [[111; 107]]; h_err := false |}.
+Definition ex_k0 : bytes := [114; 48].
+Definition ex_k1 : bytes := [114; 49].
+Definition ex_scripts : list script := [ex_script ex_k0; ex_script ex_k1].
+Definition ex_crs : list creq :=
+  [ {| c_bytes := ex_b1; c_id := ex_k0; c_kind := 0; c_head := false; c_expect := false |};
+    {| c_bytes := ex_b2; c_id := ex_k1; c_kind := 0; c_head := false; c_expect := false |} ].
+Lemma ex_good0 : good_req ex_scripts {| c_bytes := ex_b1; c_id := ex_k0; c_kind := 0; c_head := false; c_expect := false |} ex_r1.
+Proof.
+  unfold good_req. cbn [c_kind c_head c_id].
+  split; [reflexivity|]. split; [vm_compute; reflexivity|]. split; [vm_compute; reflexivity|].
+  split; [right; reflexivity|]. split; [vm_compute; reflexivity|]. split; [vm_compute; reflexivity|].
+  exists (ex_script ex_k0).
+  split; [vm_compute; reflexivity|]. split; [reflexivity|]. split; [cbn; lia|]. split; [vm_compute; reflexivity|].
+  split; [vm_compute; reflexivity|]. split; [vm_compute; reflexivity|].
+  intros _. split; [reflexivity|]. intros v Hv. vm_compute in Hv. discriminate.
+Qed.
+Lemma ex_good1 : good_req ex_scripts {| c_bytes := ex_b2; c_id := ex_k1; c_kind := 0; c_head := false; c_expect := false |} ex_r2.
+Proof.
+  unfold good_req. cbn [c_kind c_head c_id].
+  split; [reflexivity|]. split; [vm_compute; reflexivity|]. split; [vm_compute; reflexivity|].
+  split; [right; reflexivity|]. split; [vm_compute; reflexivity|]. split; [vm_compute; reflexivity|].
+  exists (ex_script ex_k1).
+  split; [vm_compute; reflexivity|]. split; [reflexivity|]. split; [cbn; lia|]. split; [vm_compute; reflexivity|].
+  split; [vm_compute; reflexivity|]. split; [vm_compute; reflexivity|].
+  intros _. split; [reflexivity|]. intros v Hv. vm_compute in Hv. discriminate.
+Qed.
+Lemma prop_of_model_C28_nonvacuous :
+  Forall2 frames (map c_bytes ex_crs) [ex_r1; ex_r2] /\ Forall2 (good_req ex_scripts) ex_crs [ex_r1; ex_r2].
+Proof.
+  split.
+  - apply Forall2_cons; [exact ex_frames1|]. apply Forall2_cons; [exact ex_frames2|]. apply Forall2_nil.
+  - apply Forall2_cons; [exact ex_good0|]. apply Forall2_cons; [exact ex_good1|]. apply Forall2_nil.
+Qed.
